@@ -196,32 +196,56 @@ def run(rng, n_texts=60, deadlines=True):
 
 def directed(hints, limit=24):
     """failing-input search after a broken rule-level obligation: the rendered argument texts are parsed end to end by the real
-    code and by the model (injective scorer, no depth limit, latent on and off); returns the inputs whose streams differ"""
+    code and by the model (injective scorer, no depth limit, latent on and off); returns the inputs whose streams differ.
+    Timezone-aware reference times are replayed *after* a parse of the same text at the same instant in the other pool zones
+    (a cache keyed by the reference time needs that history); every text is also tried at a reference year below 100."""
     mods()
+    from datetime import timedelta, timezone
     drv = Driver()
     ops, want, meta = [], [], []
     seen = set()
+    try:
+        from corr_rules import aware_pool
+        apool = aware_pool()
+    except Exception:
+        apool = []
     for h in hints:
         if not h:
             continue
-        ts = datetime(*h["ts"])
-        for txt in h["texts"]:
-            if (txt, tuple(h["ts"])) in seen or len(seen) >= limit:
-                continue
-            seen.add((txt, tuple(h["ts"])))
-            for latent in (False, True):
-                out, subject, labels, err, ncalls, single = run_real(txt, ts, "hash", latent, 0, 1, 1, None)
-                ops.append("parse hash %s %d 0 1 1 - %s" % (enc_ts(ts), 1 if latent else 0, enc(txt)))
-                want.append(fmt(out, subject, labels, err)); meta.append((txt, h["ts"], latent))
+        base = datetime(*h["ts"])
+        if h.get("utcoffset_min") is not None:
+            base = base.replace(tzinfo=timezone(timedelta(minutes=h["utcoffset_min"])))
+        variants = [base] + ([datetime(50, 6, 15, 12, 0)] if base.tzinfo is None else [])
+        for ts in variants:
+            for txt in h["texts"]:
+                key = (txt, ts.isoformat())
+                if key in seen or len(seen) >= limit:
+                    continue
+                seen.add(key)
+                history = [p for p in apool if ts.tzinfo is not None and p == ts and p.utcoffset() != ts.utcoffset()]
+                for latent in (False, True):
+                    for p in history:
+                        try:
+                            run_real(txt, p, "hash", latent, 0, 1, 1, None)
+                        except Exception:
+                            pass
+                    out, subject, labels, err, ncalls, single = run_real(txt, ts, "hash", latent, 0, 1, 1, None)
+                    ops.append("parse hash %s %d 0 1 1 - %s" % (enc_ts(ts), 1 if latent else 0, enc(txt)))
+                    want.append(fmt(out, subject, labels, err))
+                    meta.append((txt, [ts.year, ts.month, ts.day, ts.hour, ts.minute, ts.second], latent, None if ts.tzinfo is None else int(ts.utcoffset().total_seconds() // 60), [p.isoformat() for p in history]))
     got = drv.run(ops) if ops else []
     bad = []
-    for g, (cands, subj, labs, err, best), (txt, ts, latent) in zip(got, want, meta):
+    for g, (cands, subj, labs, err, best), (txt, ts, latent, off, hist) in zip(got, want, meta):
         parts = g.split(" ## ")
         if len(parts) != 5 or parts[0] != cands or parts[3] != err:
             mc = parts[0].split(";;") if len(parts) == 5 else [g]
             ic = cands.split(";;")
             only_m = [x for x in mc if x not in ic][:3]; only_i = [x for x in ic if x not in mc][:3]
-            bad.append({"text": txt, "ts": ts, "opts": {"latent_time": latent, "max_stack_depth": 0, "scorer": "injective synthetic"},
+            o = {"latent_time": latent, "max_stack_depth": 0, "scorer": "injective synthetic"}
+            if off is not None:
+                o["reference_utcoffset_min"] = off
+                o["history"] = "the same text was parsed before at the same instant given in other zones: %s" % hist
+            bad.append({"text": txt, "ts": ts, "opts": o,
                         "expected": "model: error=%s; candidates only in the model: %s" % (parts[3] if len(parts) == 5 else "?", only_m),
                         "observed": "code: error=%s; candidates only in the code: %s" % (err, only_i)})
     return bad
